@@ -5,6 +5,7 @@ import XProofs.Properties.C01
 #print axioms Properties.C01.C01_other_locations
 #print axioms Properties.C01.C01_set_value_function_tasks
 #print axioms Properties.C01.C01_function_scope_test_sound
+#print axioms Properties.C01.C01_order_independent
 #print axioms Properties.C01.C01_histories
 #print axioms Properties.C01.C01_decided
 #print axioms Properties.C01.C01_tests_sound
